@@ -3,9 +3,9 @@
 LAYER_DEFAULTS = {
     'tracer': {'quick': {'n': 60, 'size': 40, 'shards': 2}, 'thorough': {'n': 400, 'size': 120, 'shards': 16}},
     'conc': {'quick': {'n': 4, 'size': 20, 'shards': 1}, 'thorough': {'n': 40, 'size': 25, 'shards': 2}},
-    'diff': {'quick': {'n': 250, 'size': 20, 'shards': 4}, 'thorough': {'n': 6000, 'size': 30, 'shards': 16}},
+    'diff': {'quick': {'n': 250, 'size': 20, 'shards': 4}, 'thorough': {'n': 3000, 'size': 30, 'shards': 16}},
     'calltracer': {'quick': {'n': 100, 'size': 10, 'shards': 2}, 'thorough': {'n': 2000, 'size': 10, 'shards': 16}},
-    'frame': {'quick': {'n': 150, 'size': 10, 'shards': 2}, 'thorough': {'n': 3000, 'size': 10, 'shards': 16}},
+    'frame': {'quick': {'n': 150, 'size': 10, 'shards': 2}, 'thorough': {'n': 2000, 'size': 10, 'shards': 16}},
     'cancun': {'quick': {'n': 150, 'size': 20, 'shards': 2}, 'thorough': {'n': 3000, 'size': 20, 'shards': 16}},
     'precompile': {'quick': {'n': 150, 'size': 20, 'shards': 2}, 'thorough': {'n': 3000, 'size': 20, 'shards': 16}},
     'journal': {'quick': {'n': 60, 'size': 20, 'shards': 2}, 'thorough': {'n': 400, 'size': 100, 'shards': 16}},
@@ -152,7 +152,7 @@ PROPS = {
         'assumptions': ['the interpreter loop performs exactly stack check, dynamic gas, execute, pc++ for a table entry without memorySize (inherited, identical to upstream: generated identity table)'],
     },
     'C20': {
-        'modules': ['Artela.Props.C20', 'Artela.Proofs.GenFacts', 'Artela.Props.InterpHalts', 'Artela.Props.InterpTables'],
+        'modules': ['Artela.Props.C20', 'Artela.Proofs.GenFacts', 'Artela.Props.InterpHalts', 'Artela.Props.InterpWork', 'Artela.Props.InterpTables'],
         'runs': [{'layer': 'journal'}, {'layer': 'precompile'}, {'layer': 'cancun'}, {'layer': 'interp'}],
         'trusted_base': TB_M1 + TB_M2 + TB_GEN + TB_M9 + ['work is counted as 32 units per StateDB read + 1 per byte copied/allocated; the search uses the fixed multiple K=16 (go/layer_journal.go workK)'],
         'assumptions': ['standard instructions and precompiles 1-9: bounded by upstream gas schedule (identity-checked, not modelled)'],
